@@ -76,6 +76,13 @@ pub static SCHEMA_PROBE_TO_HANDLER: std::sync::atomic::AtomicBool = std::sync::a
 pub static HIDDEN_NODES: std::sync::atomic::AtomicU32 = std::sync::atomic::AtomicU32::new(0);
 /// every answer to a system-table query is held back this many milliseconds (a busy node: each page slow, none too slow)
 pub static SYS_DELAY_MS: std::sync::atomic::AtomicU64 = std::sync::atomic::AtomicU64::new(0);
+/// node 0 of the configuration lives at the IPv6 loopback address `::1` instead of its configured IPv4 address (listeners,
+/// contact point, `system.local` / `system.peers`)
+pub static V6_NODE0: std::sync::atomic::AtomicBool = std::sync::atomic::AtomicBool::new(false);
+/// the address node `i` really lives at
+pub fn node_addr(i: usize, ip: Ipv4Addr) -> std::net::IpAddr {
+    if i == 0 && V6_NODE0.load(std::sync::atomic::Ordering::SeqCst) { std::net::Ipv6Addr::LOCALHOST.into() } else { ip.into() }
+}
 /// index of a node that currently accepts no NEW connections (they are closed at once; established ones live on), or -1
 pub static REFUSE_NODE: std::sync::atomic::AtomicI32 = std::sync::atomic::AtomicI32::new(-1);
 
@@ -858,7 +865,7 @@ impl MockCluster {
     /// `ip:port` of node `i`'s native port.
     pub fn contact_point(&self, i: usize) -> String {
         let cfg = self.shared.cfg.read().unwrap();
-        format!("{}:{}", cfg.nodes[i].ip, cfg.port)
+        SocketAddr::new(node_addr(i, cfg.nodes[i].ip), cfg.port).to_string()
     }
 
     /// Replaces the topology/schema answered from now on. Listeners are not touched: use
@@ -946,7 +953,7 @@ impl MockCluster {
         let (ip, port, sa_port) = {
             let cfg = self.shared.cfg.read().unwrap();
             let n = cfg.nodes.get(i).ok_or_else(|| std::io::Error::other(format!("no node {i} in the config")))?;
-            (n.ip, cfg.port, if n.nr_shards.is_some() { cfg.shard_aware_port } else { None })
+            (node_addr(i, n.ip), cfg.port, if n.nr_shards.is_some() { cfg.shard_aware_port } else { None })
         };
         let bind = |p: u16| async move {
             TcpListener::bind(SocketAddr::from((ip, p))).await.map_err(|e| std::io::Error::new(e.kind(), format!("bind {ip}:{p}: {e}")))
